@@ -4,6 +4,8 @@ import RainModel.Model.CachedPiece
 import RainModel.Lemmas.Request
 import RainModel.Lemmas.Cache
 import RainModel.Lemmas.CachedPiece
+import RainModel.Model.WriteQueue
+import RainModel.Lemmas.WriteQueue
 /-!
 C03 — upload integrity (and the read-cache / upload-queue bounds C17 relies on).
 Property theorems only; helper lemmas live in `Lemmas/`.
@@ -241,5 +243,126 @@ theorem readAtOld_wide_counterexample :
     let data : Bytes := (List.range 50).map (· + 100)
     let cp : CP := { peerID := List.replicate 20 1, index := 0, length := 50, readSize := 4294967296 }
     (readAtOld cp (dataReader data) (new 40 60) 20 25).2 = .panic := by decide
+
+/-! ## Upload queue and framing (M-WQ) -/
+
+open Rain.WriteQueue in
+/-- **wq_bound** (for C17). After any interleaving of enqueues (any message), cancels and hand-offs to
+the writer goroutine, for every configured `maxQueuedRequests` (also zero and negative) and both
+fast modes: the counter equals the number of piece messages in the queue and that number is at most
+`max maxQueuedRequests 0`. -/
+theorem wq_bound (maxQ : Int) (fast : Bool) (ops : List Rain.WriteQueue.Op) :
+    let s := Rain.WriteQueue.run (Rain.WriteQueue.new maxQ fast) ops
+    s.queued = countPieces s.queue ∧ (countPieces s.queue : Int) ≤ max maxQ 0 ∧ s.maxQueued = maxQ := by
+  intro s
+  obtain ⟨h1, h2⟩ := run_inv ops (Rain.WriteQueue.new maxQ fast) (Rain.WriteQueue.new_inv maxQ fast)
+  have h2' : s.maxQueued = maxQ := h2
+  refine ⟨h1.count, ?_, h2'⟩
+  have := h1.bound
+  rw [← h1.count]; rw [h2'] at this; exact this
+
+open Rain.WriteQueue in
+/-- **cancel_not_sent.** From any queue state in which request `r` is queued at most once: after
+`CancelRequest(r)` the writer never takes a piece message for `r` again — whatever else happens —
+until `r` is requested anew. -/
+theorem cancel_not_sent (s : WQ) (r : Req) (ops : List Rain.WriteQueue.Op)
+    (hone : List.count (Msg.piece r) s.queue ≤ 1) (hops : ∀ o ∈ ops, o ≠ .enqueue (.piece r)) :
+    ∀ x ∈ handed (Rain.WriteQueue.cancel s r) ops, x.1 ≠ .piece r :=
+  handed_no_piece r ops _ (cancel_removes s r hone) hops
+
+open Rain.WriteQueue in
+/-- **choke_not_sent.** After a `choke` is enqueued no piece message that was queued before it is
+ever written (whatever the fast mode), until requested anew. -/
+theorem choke_not_sent (s : WQ) (r : Req) (ops : List Rain.WriteQueue.Op)
+    (hops : ∀ o ∈ ops, o ≠ .enqueue (.piece r)) :
+    ∀ x ∈ handed (enqueue s .choke) ops, x.1 ≠ .piece r :=
+  handed_no_piece r ops _ (choke_removes s r) hops
+
+open Rain.WriteQueue in
+/-- **piece_frame_exact.** What the writer emits for a piece message, completely: a *reject* frame
+if the request was served before (duplicate); otherwise — for a length within the 16 KiB buffer and
+`n` bytes returned by the data source — the frame `be32(9+n) ‖ 7 ‖ be32 index ‖ be32 begin ‖ bytes`;
+the writer gives up on a read error; a length above 16 KiB would index past the buffer (excluded
+upstream by `wire_served_le_16k`). -/
+theorem piece_frame_exact (served : List Req) (r : Req) (d : DataRes) :
+    (r ∈ served ∧ writeMsg served (.piece r) d = (served, .frame (frame 16 (reqBytes r)))) ∨
+    (r ∉ served ∧ (writeMsg served (.piece r) d).1 = r :: served ∧
+      ((maxBlock < r.l ∧ (writeMsg served (.piece r) d).2 = .panic) ∨
+       (r.l ≤ maxBlock ∧ ((∃ bytes, (d = .ok bytes ∨ d = .eof bytes) ∧
+            (writeMsg served (.piece r) d).2 =
+              .frame (Rain.WriteQueue.be32 (9 + bytes.length) ++ [7] ++ Rain.WriteQueue.be32 r.idx ++
+                        Rain.WriteQueue.be32 r.b ++ bytes)) ∨
+          (d = .err ∧ (writeMsg served (.piece r) d).2 = .died))))) :=
+  writeMsg_piece served r d
+
+open Rain.WriteQueue in
+/-- **served_once.** In every history, from any state, the requests answered with a data-carrying
+piece frame are pairwise distinct and none of them had been served before: a duplicate of a served
+request is rejected, never answered with data twice. -/
+theorem served_once (s : WQ) (ops : List Rain.WriteQueue.Op) :
+    (dataSent (handed s ops)).Nodup ∧ ∀ r ∈ dataSent (handed s ops), r ∉ s.served :=
+  dataSent_nodup ops s
+
+open Rain.WriteQueue in
+/-- Non-vacuity: limit 1, no fast extension — the second request is dropped, the first is cancelled,
+the third is queued and sent as `be32(9+2) 7 idx begin data`. -/
+example :
+    let ops : List Rain.WriteQueue.Op := [.enqueue (.piece ⟨0, 0, 2⟩), .enqueue (.piece ⟨0, 2, 2⟩), .cancel ⟨0, 0, 2⟩,
+      .enqueue (.piece ⟨1, 4, 2⟩), .handoff (.ok [0xAA, 0xBB]), .handoff .err]
+    handed (Rain.WriteQueue.new 1 false) ops =
+      [(.piece ⟨1, 4, 2⟩, .frame [0, 0, 0, 11, 7, 0, 0, 0, 1, 0, 0, 0, 4, 0xAA, 0xBB])] := by decide
+
+/-! ## The read path composed -/
+
+open Rain.WriteQueue in
+/-- **upload_frame_exact.** Handler, cached read and framing composed: if the request branch decides
+to serve `(index, begin, length)` (32-bit values from the wire that passed the reader), then — for
+every read-cache block size `> 0`, every invariant cache state coherent with the world's pieces, the
+piece's bytes `data` having the piece's length — the bytes the writer puts on the wire for that
+request (not served before) are exactly
+`be32(9+length) ‖ 7 ‖ be32 index ‖ be32 begin ‖ data[begin, begin+length)`, `13 + length` bytes. -/
+theorem upload_frame_exact (ctx : Ctx) (idx b l : U32) (hserve : wireRequest ctx idx b l = some .serve)
+    (w : World) (rs : Nat) (hrs : 0 < rs) (pid : Bytes) (hpid : pid.length = 20)
+    (hdata : ∀ pi, ctx.pieces[idx.toNat]? = some pi → (w pid idx.toNat).length = pi.length.toNat)
+    (c : Cache Bytes) (hinv : Inv c) (hcoh : Coherent w rs c)
+    (served : List Req) (hnew : (⟨idx.toNat, b.toNat, l.toNat⟩ : Req) ∉ served) :
+    let data := w pid idx.toNat
+    let cp : CP := { peerID := pid, index := idx.toNat, length := data.length, readSize := rs }
+    let r : Req := ⟨idx.toNat, b.toNat, l.toNat⟩
+    ∃ bytes, (readAt cp (dataReader data) c l.toNat b.toNat).2 = .ok bytes ∧
+      bytes = slice data b.toNat l.toNat ∧ bytes.length = l.toNat ∧
+      (writeMsg served (.piece r) (.ok bytes)).2 =
+        .frame (Rain.WriteQueue.be32 (9 + l.toNat) ++ [7] ++ Rain.WriteQueue.be32 idx.toNat ++
+                  Rain.WriteQueue.be32 b.toNat ++ slice data b.toNat l.toNat) := by
+  intro data cp r
+  have hl := wire_served_le_16k ctx idx b l hserve
+  have hs : handleRequest ctx idx b l = .serve := by
+    unfold wireRequest at hserve
+    split at hserve
+    · simpa using hserve
+    · cases hserve
+  obtain ⟨_, _, pi, hpi, _, hrange, _, _⟩ := (serve_sound ctx idx b l).mp hs
+  have hlen := hdata pi hpi
+  have hL : data.length < 4294967296 := by
+    have := pi.length.isLt
+    show (w pid idx.toNat).length < 4294967296
+    omega
+  have hrange' : b.toNat + l.toNat ≤ data.length := by
+    show b.toNat + l.toNat ≤ (w pid idx.toNat).length
+    omega
+  have hread := cachedpiece_exact_total w rs hrs pid hpid idx.toNat idx.isLt hL c hinv hcoh b.toNat l.toNat hrange'
+  have hblen : (slice data b.toNat l.toNat).length = l.toNat := by
+    rw [slice_length]; omega
+  refine ⟨slice data b.toNat l.toNat, hread, rfl, hblen, ?_⟩
+  rcases writeMsg_piece served r (.ok (slice data b.toNat l.toNat)) with ⟨hin, _⟩ | ⟨_, _, hrest⟩
+  · exact absurd hin hnew
+  · rcases hrest with ⟨hbig, _⟩ | ⟨_, ⟨bytes, hb, hw⟩ | ⟨hb, _⟩⟩
+    · have : r.l = l.toNat := rfl
+      unfold maxBlock at hbig; omega
+    · rcases hb with hb | hb
+      · cases hb
+        rw [hw, pieceFrame, hblen]
+      · cases hb
+    · cases hb
 
 end Rain.Props.C03
